@@ -53,6 +53,8 @@ structure Inv (s : State) : Prop where
   /-- the chronological log is the body's part followed by the answers given after the body had finished -/
   seen_eq : s.seen = s.obs ++ s.post
   sync_post : inSync s = true → s.post = []
+  /-- `_arg`, when set, is the argument of the most recent `set_arg` -/
+  arg_last : s.mode = true → s.arg = none ∨ s.arg = some s.lastArg
 
 /-! ### normal forms: the derived notions as functions of the fields they read, so that `simp` sees through record updates -/
 
@@ -120,7 +122,7 @@ theorem inSyncC_true {c : Cons} : inSyncC c = true ↔ ∃ k, c = .inSync k := b
 set_option hygiene false in
 macro "inv_cases " h:ident : tactic => `(tactic|
   obtain ⟨noub, seq_run, seq_fin, flags_run, flags_fin, ret_yield, ret_fin, busy_iff, stuck_fin, c_awt, c_int, c_none,
-    reader_pending, arg_ok, guards, live_fin, live_dead, got_ok, post_end, post_fin, post_exc, await_unres, seen_eq, sync_post⟩ := $h)
+    reader_pending, arg_ok, guards, live_fin, live_dead, got_ok, post_end, post_fin, post_exc, await_unres, seen_eq, sync_post, arg_last⟩ := $h)
 
 /-- split the goal `Inv _` into its clauses and normalise each against the hypotheses -/
 macro "inv_dbg" : tactic => `(tactic|
@@ -322,9 +324,14 @@ theorem inv_it {s : State} (h : Inv s) (x : Option Bool) : Inv { s with it := x 
   inv_cases h
   inv_close
 
+/-- consumer-side fields of the kept object never matter for the invariant -/
+theorem inv_kfields {s : State} (h : Inv s) (k : Option Nat) (b : Bool) : Inv { s with kept := k, kstate := b } := by
+  inv_cases h
+  inv_close
+
 theorem inv_endSync {s : State} (h : Inv s) (kind : SyncKind) (b : Bool) : Inv (endSync s kind b).1 := by
   unfold endSync
-  cases kind <;> first | exact h | exact inv_it h _
+  cases kind <;> first | exact h | exact inv_it h _ | exact inv_kfields h _ _
 
 /-- facts about an idle generator (no access outstanding, the assert of next_sync/next_async/next_future holds) -/
 theorem idle_facts {s : State} (h : Inv s) (hc : s.caller = .none) :
@@ -396,8 +403,8 @@ theorem inv_arm_sync {s : State} (h : Inv s) (hal : s.alive = true) (hc : s.call
 
 /-- `next_async` stores the consumer's awaiter and transfers into the body -/
 theorem inv_arm_awt {s : State} (h : Inv s) (hal : s.alive = true) (hc : s.caller = .none) (hns : inSync s = false) (hf : s.bst ≠ .final)
-    (a : Nat) (m : Bool) :
-    Inv (resumeBody { setArg s a with caller := .awt, cons := .parked, subMode := m }) := by
+    (a : Nat) (m : AwtKind) :
+    Inv (resumeBody { setArg s a with caller := .awt, cons := .parked, awtKind := m }) := by
   obtain ⟨hm, hst, hcp, hfp⟩ := idle_facts h hc
   have hb := idle_bst hm hf
   have hci : s.cons = .idle := by
@@ -491,7 +498,7 @@ theorem inv_anextGo {s : State} (h : Inv s) (hal : s.alive = true) (hc : s.calle
     · rename_i hd hf
       exact inv_post_stuck h1 (by simpa [inSync_eq] using hns) (by simpa using hf) (by simpa using hc) _
     · rename_i hd hf
-      exact inv_arm_awt h hal hc hns (by simpa using hf) a false
+      exact inv_arm_awt h hal hc hns (by simpa using hf) a .coro
 
 theorem inv_stepAnext {s : State} (h : Inv s) (a : Nat) : Inv (stepAnext s a).1 := by
   unfold stepAnext
@@ -513,7 +520,7 @@ theorem inv_subGo {s : State} (h : Inv s) (hal : s.alive = true) (hc : s.caller 
   · rename_i hf
     exact inv_post_stuck h1 (by simpa [inSync_eq] using hns) (by simpa using hf) (by simpa using hc) _
   · rename_i hf
-    exact inv_arm_awt h hal hc hns (by simpa using hf) a true
+    exact inv_arm_awt h hal hc hns (by simpa using hf) a .cb
 
 theorem inv_stepSub {s : State} (h : Inv s) (a : Nat) : Inv (stepSub s a).1 := by
   unfold stepSub
@@ -525,6 +532,116 @@ theorem inv_stepSub {s : State} (h : Inv s) (a : Nat) : Inv (stepSub s a).1 := b
       · exact h
       · rename_i h1 h2 h3
         exact inv_subGo h (by simpa using h1) (by simpa using h3) (by simpa using h2) a
+
+theorem inv_stepKeep {s : State} (h : Inv s) (a : Nat) : Inv (stepKeep s a).1 := by
+  unfold stepKeep
+  split
+  · exact h
+  · split
+    · exact h
+    · split
+      · exact h
+      · rename_i h1 h2 h3
+        have hc : s.caller = .none := by simpa using h3
+        obtain ⟨hm, _, _, _⟩ := idle_facts h hc
+        exact inv_kfields (inv_setArg h hm a) _ _
+
+/-- a consultation of the kept object that has to ask the generator: the access of `operator bool`, with the argument stored when
+the object was created -/
+theorem inv_arm_sync_kept {s : State} (h : Inv s) (hal : s.alive = true) (hc : s.caller = .none) (hns : inSync s = false)
+    (hf : s.bst ≠ .final) (harg : s.mode = true → s.arg = some s.lastArg) :
+    Inv (resumeBody { s with block := false, caller := .internal, ifn := .sync, cons := .inSync .kept }) := by
+  obtain ⟨hm, hst, hcp, hfp⟩ := idle_facts h hc
+  have hb := idle_bst hm hf
+  have hci : s.cons = .idle := by
+    rw [inSync_eq] at hns
+    cases hcs : s.cons <;> simp_all
+  apply inv_resumeBody
+  · inv_cases h
+    inv_close
+  · simpa using Or.elim hb Or.inl (fun h => Or.inr (Or.inl h))
+
+theorem inv_arm_awt_kept {s : State} (h : Inv s) (hal : s.alive = true) (hc : s.caller = .none) (hns : inSync s = false)
+    (hf : s.bst ≠ .final) (harg : s.mode = true → s.arg = some s.lastArg) :
+    Inv (resumeBody { s with caller := .awt, cons := .parked, awtKind := .kept }) := by
+  obtain ⟨hm, hst, hcp, hfp⟩ := idle_facts h hc
+  have hb := idle_bst hm hf
+  have hci : s.cons = .idle := by
+    rw [inSync_eq] at hns
+    cases hcs : s.cons <;> simp_all
+  apply inv_resumeBody
+  · inv_cases h
+    inv_close
+  · simpa using Or.elim hb Or.inl (fun h => Or.inr (Or.inl h))
+
+theorem keptArg_last {s : State} (h : Inv s) (a : Nat) (hk : keptArgOk s a = true) :
+    s.mode = true → s.arg = some s.lastArg := by
+  intro hm
+  have hl := h.arg_last hm
+  simp [keptArgOk, hm] at hk
+  rcases hl with hl | hl
+  · rw [hl] at hk; exact absurd hk (by simp)
+  · exact hl
+
+theorem inv_syncGo_kept {s : State} (h : Inv s) (hal : s.alive = true) (hc : s.caller = .none) (hns : inSync s = false)
+    (harg : s.mode = true → s.arg = some s.lastArg) : Inv (syncGo s .kept).1 := by
+  unfold syncGo
+  split
+  · rename_i hd
+    exact inv_endSync (inv_post_fin h hns hd _) .kept false
+  · split
+    · rename_i hd hf
+      exact inv_post_nomore h hns (by simpa using hf)
+    · rename_i hd hf
+      exact inv_arm_sync_kept h hal hc hns (by simpa using hf) harg
+
+theorem inv_stepKtest {s : State} (h : Inv s) : Inv (stepKtest s).1 := by
+  unfold stepKtest
+  split
+  · exact h
+  · split
+    · exact h
+    · split
+      · exact h
+      · rename_i h1 h2 _ a hk
+        split
+        · exact h
+        · split
+          · exact h
+          · split
+            · exact h
+            · rename_i h3 h4 h5
+              exact inv_syncGo_kept h (by simpa using h1) (by simpa using h4) (by simpa using h2)
+                (keptArg_last h a (by simpa using h5))
+
+theorem inv_kawaitGo {s : State} (h : Inv s) (hal : s.alive = true) (hc : s.caller = .none) (hns : inSync s = false)
+    (harg : s.mode = true → s.arg = some s.lastArg) : Inv (kawaitGo s).1 := by
+  unfold kawaitGo
+  split
+  · rename_i hd
+    exact inv_kfields (inv_post_fin h hns hd _) _ _
+  · split
+    · rename_i hd hf
+      exact inv_post_stuck h hns (by simpa using hf) hc _
+    · rename_i hd hf
+      exact inv_arm_awt_kept h hal hc hns (by simpa using hf) harg
+
+theorem inv_stepKawait {s : State} (h : Inv s) : Inv (stepKawait s).1 := by
+  unfold stepKawait
+  split
+  · exact h
+  · split
+    · exact h
+    · split
+      · exact h
+      · rename_i h1 h2 _ a hk
+        split
+        · exact h
+        · split
+          · exact h
+          · rename_i h4 h5
+            exact inv_kawaitGo h (by simpa using h1) (by simpa using h4) (by simpa using h2)
+              (keptArg_last h a (by simpa using h5))
 
 theorem inv_callGo {s : State} (h : Inv s) (hal : s.alive = true) (hc : s.caller = .none) (hns : inSync s = false)
     (a : Nat) : Inv (callGo (setArg s a)).1 := by
@@ -687,6 +804,9 @@ theorem inv_step {s : State} (h : Inv s) (op : Op) : Inv (step s op).1 := by
   | active => exact inv_stepActive h
   | anext a => exact inv_stepAnext h a
   | sub a => exact inv_stepSub h a
+  | keep a => exact inv_stepKeep h a
+  | ktest => exact inv_stepKtest h
+  | kawait => exact inv_stepKawait h
   | call a => exact inv_stepCall h a
   | futWait => exact inv_stepFutWait h
   | futGet => exact inv_stepFutGet h
@@ -774,6 +894,11 @@ theorem konst_step (s : State) (op : Op) : konst (step s op).1 = konst s := by
   case sub a =>
     unfold stepSub subGo
     repeat (first | rfl | (dsimp only; rw [konst_resumeBody]; exact konst_setArg _ _) | exact konst_setArg _ _ | split)
+  case keep a => unfold stepKeep; repeat (first | rfl | exact konst_setArg _ _ | split)
+  case ktest => unfold stepKtest; repeat (first | rfl | (rw [konst_syncGo]) | split)
+  case kawait =>
+    unfold stepKawait kawaitGo
+    repeat (first | rfl | (dsimp only; rw [konst_resumeBody]; rfl) | split)
   case call a =>
     unfold stepCall callGo futRes
     repeat (first | rfl | (dsimp only; rw [konst_resumeBody]; exact konst_setArg _ _) | exact konst_setArg _ _ | split)
@@ -888,6 +1013,11 @@ theorem step_not_run (s : State) (op : Op) (h : s.bst ≠ .run) : (step s op).1.
   case sub a =>
     unfold stepSub subGo
     repeat (first | exact h | exact hs _ | exact resumeBody_not_run _ (hs _) | split)
+  case keep a => unfold stepKeep; repeat (first | exact h | exact hs _ | split)
+  case ktest => unfold stepKtest; repeat (first | exact h | exact syncGo_not_run _ _ h | split)
+  case kawait =>
+    unfold stepKawait kawaitGo
+    repeat (first | exact h | exact resumeBody_not_run _ h | split)
   case call a =>
     unfold stepCall callGo futRes
     repeat (first | exact h | exact hs _ | exact resumeBody_not_run _ (hs _) | split)
